@@ -115,6 +115,14 @@ func TestVerifC03(t *testing.T) {
 		case 2:
 			cfg.WideObjStm = true
 			cfg.NoObjStm = false
+			if c.Index%8 == 6 {
+				cfg.WideObjStm = false
+				cfg.ManyUnwritten = kit.Pick(c.Rng, []int{255, 300, 66000, 70000})
+				cfg.TinyObjStm = true
+				cfg.MaxOps = c.Rng.Intn(3)
+				cfg.Version = gen.Versions[5+c.Index/8%4]
+				cfg.HumanReadable = false
+			}
 			if c.Index%8 == 2 {
 				// large xref streams (and tables, one in four)
 				cfg.ManyObjects = 800 + c.Rng.Intn(4000)
@@ -129,6 +137,11 @@ func TestVerifC03(t *testing.T) {
 			}
 			cfg.WideObjStm = true
 			cfg.NoObjStm = false
+			if c.Index%20 == 3 {
+				cfg.HugeObjStm = true
+				cfg.Version = gen.Versions[5+c.Index/20%4]
+				cfg.HumanReadable = false
+			}
 		}
 		d, err := gen.BuildDoc(c.Rng, cfg)
 		if err != nil {
